@@ -63,8 +63,8 @@ Init == l = 1
 
 Next ==
   /\ l <= Len(Trace)
-  /\ IF EventOK(Trace[l]) THEN TRUE ELSE PrintT(<<"REJECT", l, Trace[l].op>>)
-  /\ IF l = Len(Trace) THEN PrintT(<<"DONE", l>>) ELSE TRUE
+  /\ IF EventOK(Trace[l]) THEN TRUE ELSE PrintT("REJECT " \o ToString(l) \o " " \o Trace[l].op \o " {}")
+  /\ IF l = Len(Trace) THEN PrintT("DONE " \o ToString(l)) ELSE TRUE
   /\ l' = l + 1
 
 Spec == Init /\ [][Next]_l
